@@ -123,6 +123,37 @@ def main():
             if d > 1e-8:
                 res.fail("sweep:comp_basis_superposition", f"prepared state differs from cos|a>+e^(i phi) sin|b> (dist {d:.2e})",
                          {"n": n, "a": sa.bits, "b": sb.bits, "phase_a": sa._phase, "phase_b": sb._phase, "theta": th, "phi": ph})
+    # the preparation circuit (PrepCircuit.v: prep_idx) vs ComputationalBasisState.circuit, registers up to 130 qubits; and
+    # the shape of the state that with_gates_applied builds for a chain with a non-Pauli gate: a general circuit state over
+    # circuit + gates on the same register (the object mixed_chain_state speaks about)
+    from quri_parts.core.state import GeneralCircuitQuantumState  # noqa: E402
+    pr_terms, pr_real = [], []
+    for _ in range(120 if a.tier == "quick" else 1200):
+        n = rng.choice([1, 2, 3, 5, 8, 31, 32, 33, 63, 64, 65, 130])
+        bits = rng.getrandbits(n) if rng.random() < 0.9 else rng.choice([0, (1 << n) - 1, 1 << (n - 1)])
+        st0 = ComputationalBasisState(n, bits=bits)
+        gl0 = list(st0.circuit.gates)
+        pr_terms.append(f"map Z.of_nat (prep_idx {n}%nat {bits}%N)")
+        pr_real.append(([int(g.target_indices[0]) for g in gl0], n, bits))
+        inp = {"n": n, "bits": bits}
+        if any(g.name != "X" or len(g.target_indices) != 1 or g.control_indices for g in gl0) or st0.circuit.qubit_count != n:
+            res.fail("corr:comp_basis:circuit:shape", "the preparation circuit is not a list of X gates on n qubits", inp)
+        extra_g = [gates.H(rng.randrange(n)), gates.X(rng.randrange(n))]
+        rng.shuffle(extra_g)
+        der = st0.with_gates_applied(extra_g)
+        ok = isinstance(der, GeneralCircuitQuantumState) and der.qubit_count == n and list(der.circuit.gates) == gl0 + extra_g
+        if not ok:
+            res.fail("corr:comp_basis:mixed_chain:shape", "with_gates_applied with a non-Pauli gate did not return the general "
+                     "state over circuit + gates", dict(inp, gates=[(g.name, list(g.target_indices)) for g in extra_g]))
+    try:
+        prm = coqeval.eval_cases(a.work, "c16prep", "From Coq Require Import ZArith NArith List.\nFrom QPM Require Import PrepCircuit.\nOpen Scope Z_scope.",
+                                 "", pr_terms)
+        for (real, n, bits), m in zip(pr_real, prm):
+            res.count(("prep", n, bits), nontrivial=bits != 0, bucket="preparation circuit")
+            if real != m:
+                res.fail("corr:comp_basis:circuit", f"model X targets {m} != implementation {real}", {"n": n, "bits": bits})
+    except Exception as e:  # noqa: BLE001
+        res.broken.append({"what": "correspondence C16 (preparation circuit): model evaluation failed", "detail": str(e)[-1200:]})
     # the decisions of the builder (rotation targets, the qubit that gets the RZ, the sign of its angle) vs the model
     try:
         spm = coqeval.eval_cases(a.work, "c16sp", "From Coq Require Import ZArith NArith List.\nFrom QPM Require Import SuperPos.\nOpen Scope Z_scope.",
